@@ -25,6 +25,7 @@ func init() {
 		v := NewVariant(c)
 		w := v.World(c, true, 12)
 		w.Prologue(chain.PrologueCfg{Scale: v.Scale, W2A: v.W2A, W2B: v.W2B, Fee1: v.Fee1, Fee2: v.Fee2, Bond: v.Scale / 20})
+		v.Sweep(w)
 		u := w.Users
 		S := v.Scale
 		open := func(a *chain.Actor, col int64, lev string) *chain.TxRecord {
